@@ -790,7 +790,7 @@ fn former_defects(ctx: &mut Ctx) {
     let e150: String = "é".repeat(150);
     let e75: String = "é".repeat(75);
     let mix: String = format!("{}{}", "a".repeat(149), "é");
-    let mut put = |ctx: &mut Ctx, field: &str, v: J| {
+    let put = |ctx: &mut Ctx, field: &str, v: J| {
         let mut m = build_record(MDL, &mut ctx.rng, &|_| false);
         m.insert(field.to_string(), v);
         record_case(ctx, "boundary_in_record", MDL, &J::Object(m), true);
